@@ -216,7 +216,7 @@ func (g *Gen) genMarketAdd() Op {
 	if g.chance(0.02) {
 		odds = odds[:1] // too few
 	}
-	if g.chance(0.02) {
+	if g.chance(0.02) && len(odds) > 1 {
 		odds[1] = odds[0] // duplicate odds uid
 	}
 	start := g.c.Time - int64(g.r.Intn(50)) + 10
